@@ -216,13 +216,16 @@ pub fn run_server_case(prop: &'static str, case: &ServerCase) -> Verdict {
         for (bi, b) in c.bursts.iter().copied().enumerate() {
             ph.store(10 + bi, Ordering::SeqCst);
             // (all requests of the earlier bursts have been delivered and answered by now)
-            let burst_total = if c.body_close { (b - 1) * c.reqs_per_conn + 1 } else { b * c.reqs_per_conn };
+            // (every other time the connection with the body is a persistent one, and its further
+            // requests follow the unread body)
+            let body_keep = c.body_close && c.tape.len() % 2 == 0;
+            let burst_total = if c.body_close && !body_keep { (b - 1) * c.reqs_per_conn + 1 } else { b * c.reqs_per_conn };
             hold_target.store(next_id + c.handlers.min(burst_total), Ordering::SeqCst);
             let gate = Arc::new(Gate { st: rt::sync::Mutex::new(GateSt::default()), cv: rt::sync::Condvar::new() });
             let mut clients = vec![];
             for ci in 0..b {
                 let with_body = c.body_close && ci == 0;
-                let per_conn = if with_body { 1 } else { c.reqs_per_conn };
+                let per_conn = if with_body && !body_keep { 1 } else { c.reqs_per_conn };
                 let ids: Vec<usize> = (0..per_conn).map(|k| next_id + k).collect();
                 next_id += per_conn;
                 let l = listener.clone();
@@ -237,9 +240,9 @@ pub fn run_server_case(prop: &'static str, case: &ServerCase) -> Verdict {
                         return;
                     };
                     let mut wire = vec![];
-                    for id in &ids {
-                        if with_body {
-                            wire.extend_from_slice(format!("POST /r{} HTTP/1.1\r\nHost: h\r\nConnection: close\r\nContent-Length: 2000\r\n\r\n", id).as_bytes());
+                    for (k, id) in ids.iter().enumerate() {
+                        if with_body && k == 0 {
+                            wire.extend_from_slice(format!("POST /r{} HTTP/1.1\r\nHost: h\r\n{}Content-Length: 2000\r\n\r\n", id, if body_keep { "" } else { "Connection: close\r\n" }).as_bytes());
                             wire.extend_from_slice(&[b'b'; 2000]);
                         } else {
                             wire.extend_from_slice(format!("GET /r{} HTTP/1.1\r\nHost: h\r\n\r\n", id).as_bytes());
